@@ -326,7 +326,13 @@ func (p *Parser) statement() (Statement, error) {
 					indexIdent = &ExprIdentifier{*p.previous}
 				}
 
-				p.consume(In)
+				if ident.token.Tag != Ident {
+					// for ($ in ...): $ is not a name a loop could bind
+					return nil, p.error(ident.token.Pos, "expected an identifier as loop variable")
+				}
+				if err := p.consume(In); err != nil {
+					return nil, err
+				}
 				expr, err := p.expression()
 				if err != nil {
 					return nil, err
@@ -769,6 +775,10 @@ func unary(p *Parser) (Expr, error) {
 		return nil, err
 	}
 
+	if (opToken.Tag == PlusPlus || opToken.Tag == MinusMinus) && !isAssignable(expr) {
+		return nil, p.error(opToken.Pos, fmt.Sprintf("invalid operand of %s", opToken.Tag))
+	}
+
 	return &ExprUnary{
 		Expr:    expr,
 		OpToken: opToken,
@@ -782,6 +792,10 @@ func postfix(p *Parser, left Expr) (Expr, error) {
 		return nil, err
 	}
 	opToken := *p.previous
+
+	if !isAssignable(left) {
+		return nil, p.error(opToken.Pos, fmt.Sprintf("invalid operand of %s", opToken.Tag))
+	}
 
 	return &ExprUnary{
 		Expr:    left,
@@ -871,14 +885,23 @@ func (p *Parser) rewriteCompundAssingment(left Expr, right Expr, opToken Token) 
 	}, nil
 }
 
-func assign(p *Parser, left Expr) (Expr, error) {
-	switch e := left.(type) {
-	case *ExprLiteral, *ExprArray, *ExprObject:
-		return nil, p.error(left.Token().Pos, "invalid assignment")
+// isAssignable reports whether e names a location: a variable (also $ and the
+// $-names), a member or an element. Everything else - literals, calls, match
+// expressions, arithmetic, -a, a++ - yields a value that a store would
+// silently lose.
+func isAssignable(e Expr) bool {
+	switch e := e.(type) {
+	case *ExprIdentifier:
+		return true
 	case *ExprBinary:
-		if e.OpToken.Tag != Dot && e.OpToken.Tag != LSquare {
-			return nil, p.error(left.Token().Pos, "invalid assignment")
-		}
+		return e.OpToken.Tag == Dot || e.OpToken.Tag == LSquare
+	}
+	return false
+}
+
+func assign(p *Parser, left Expr) (Expr, error) {
+	if !isAssignable(left) {
+		return nil, p.error(left.Token().Pos, "invalid assignment")
 	}
 
 	_, err := p.advance()
